@@ -13,9 +13,14 @@
 
   Reading guide
   * `signed_spec`         the sign handling for all 256 bytes and the three formats
-  * `lin_table`           generated dispatch table (mask, keys, function tags) = table 43-1 byte 24
-  * `lin_functions`       each tag applies the specification's function
-  * `forward_formula`     convert = L[(M·x + B·10^K1)·10^K2] for every record and byte
+  * `lin_table`           generated dispatch table (mask, keys, function tags) = table 43-1 byte 24;
+    `gen_lin_table_intended`: it is the `lin` dictionary of `Variant.intended` (cube root = function tag 12)
+  * `lin_functions`       each tag applies the specification's function (cube root: for a REAL cube root,
+    `F.RealCubeRoot` — defined for every argument and odd; that is all the theorems assume of it)
+  * `forward_formula`     convert = L[(M·x + B·10^K1)·10^K2] for every record and byte, all twelve L
+  * `cubert_negative_counterexample`, `shipped_cubert_rejects_negatives`   the pinned source
+    (`math.pow(x, 1.0/3)`, function tag 11) raises ValueError for EVERY negative argument of the cube
+    root, where L[…] has a value (witness: 2's complement, M = 1, reading F8h = −8)
   * `absent_reading`      None ↦ None
   * `inverse_roundtrip`   intended inverse ∘ forward = id  for ALL M ≠ 0, B, K1, K2 (algebra over ℚ)
   * `negative_zero_not_recovered`    why 1's-complement 0xFF is excluded
@@ -38,7 +43,8 @@ open PyIpmi PyIpmi.Sensor
 /-- (helper) the forward conversion once the dispatch has produced tag `t`. -/
 private theorem convert_of_tag (F : Spec.Sensor.Fns) (r : Rec) (raw t : Nat) (h : linTag r.lin = some t) :
     convert F r (some raw) = some (applyTag F t (arg r raw)) := by
-  simp only [convert, h]
+  unfold linTag at h
+  simp only [convert, convertIn, h]
 
 /-- Reading the raw byte: unsigned as is; 1's complement `r ≥ 128 ↦ r − 255`; 2's complement
 `r ≥ 128 ↦ r − 256`; "no analog reading" (code 3) as unsigned.  All 256 bytes. -/
@@ -52,28 +58,46 @@ theorem signed_spec (r : Nat) (h : r < 256) :
 
 /-- The dispatch table extracted from today's `lin` property is table 43-1 byte 24: the mask
 keeps bits [6:0], codes 0..11 select the twelve functions (tag = the function's *shape* in the
-source), every other code is unknown. -/
+source; the cube root has the shape of `Variant.intended`: defined for negative arguments), every
+other code is unknown. -/
 def linTableOk : Bool :=
   Gen.SdrTables.linMask == 0x7f &&
-  allLt 128 (fun c => decide (List.lookup c Gen.SdrTables.lin = (Spec.Sensor.linOfCode c).map Spec.Sensor.Lin.code))
+  allLt 128 (fun c => decide (List.lookup c Gen.SdrTables.lin = (Spec.Sensor.linOfCode c).map Variant.intended.tagOf))
 
 theorem lin_table_gen : linTableOk = true := by decide +kernel
 
 theorem lin_table (lin : Nat) :
-    linTag lin = (Spec.Sensor.linOfCode (lin % 128)).map Spec.Sensor.Lin.code := by
+    linTag lin = (Spec.Sensor.linOfCode (lin % 128)).map Variant.intended.tagOf := by
   have h := lin_table_gen
   simp only [linTableOk, Bool.and_eq_true, beq_iff_eq] at h
   have hm : lin &&& 0x7f = lin % 128 := by
     have := Nat.and_two_pow_sub_one_eq_mod lin 7
     simpa using this
-  unfold linTag
+  unfold linTag linTagIn
   rw [h.1, hm]
   simpa using allLt_spec h.2 (lin % 128) (Nat.mod_lt _ (by decide))
 
-/-- Every tag applies the function the specification names. -/
-theorem lin_functions (F : Spec.Sensor.Fns) (l : Spec.Sensor.Lin) (x : Rat) :
-    applyTag F l.code x = Spec.Sensor.applyLin F l x := by
-  cases l <;> rfl
+/-- The generated `lin` dictionary is, entry by entry, the dictionary of `Variant.intended`
+(in particular its cube root is `math.copysign(math.pow(abs(x), 1.0/3), x)`, function tag 12). -/
+theorem gen_lin_table_intended : Gen.SdrTables.lin = Variant.intended.linTable := by decide +kernel
+
+/-- (helper) the intended cube-root function is the specification's, for a real cube root. -/
+private theorem cubert_intended (F : Spec.Sensor.Fns) (hF : F.RealCubeRoot) (x : Rat) :
+    applyTag F 12 x = F.cubert x := by
+  simp only [applyTag]
+  split
+  · rw [hF.odd x]
+    cases F.cubert x <;> simp [Spec.Sensor.negO, Rat.neg_neg]
+  · rfl
+
+/-- Every tag applies the function the specification names — all twelve.  The only thing assumed of
+the transcendental parameters is that `F.cubert` is a real cube root (`F.RealCubeRoot`: defined for
+every argument, odd); the repaired source computes it as the cube root of `|x|` with the sign of `x`. -/
+theorem lin_functions (F : Spec.Sensor.Fns) (hF : F.RealCubeRoot) (l : Spec.Sensor.Lin) (x : Rat) :
+    applyTag F (Variant.intended.tagOf l) x = Spec.Sensor.applyLin F l x := by
+  cases l
+  case cubert => exact cubert_intended F hF x
+  all_goals rfl
 
 /-- The argument of the linearisation is `(M·x + B·10^K1)·10^K2` with `x` the reading byte
 interpreted by the analog data format. -/
@@ -85,12 +109,14 @@ theorem forward_argument (r : Rec) (raw : Nat) (h : raw < 256) :
 /-- Forward conversion = `L[(M·x + B·10^K1)·10^K2]`, for every record (all M, B, K1, K2, format
 and linearisation codes), every reading byte and every choice of the transcendental functions;
 an unknown linearisation code is a DecodingError on both sides. -/
-theorem forward_formula (F : Spec.Sensor.Fns) (r : Rec) (raw : Nat) (h : raw < 256) :
+theorem forward_formula (F : Spec.Sensor.Fns) (hF : F.RealCubeRoot) (r : Rec) (raw : Nat) (h : raw < 256) :
     convert F r (some raw) = Spec.Sensor.convert F r.fmt r.lin ⟨r.m, r.b, r.k1, r.k2⟩ (some raw) := by
-  simp only [convert, Spec.Sensor.convert, lin_table r.lin]
+  have ht := lin_table r.lin
+  unfold linTag at ht
+  simp only [convert, convertIn, Spec.Sensor.convert, ht]
   cases hl : Spec.Sensor.linOfCode (r.lin % 128) with
   | none => rfl
-  | some l => simp only [Option.map_some, lin_functions, forward_argument r raw h]
+  | some l => simp only [Option.map_some, lin_functions F hF, forward_argument r raw h]
 
 /-- An absent reading converts to an absent value. -/
 theorem absent_reading (F : Spec.Sensor.Fns) (r : Rec) :
@@ -107,7 +133,9 @@ theorem inverse_roundtrip (F : Spec.Sensor.Fns) (r : Rec) (raw : Nat) (hraw : ra
         (Spec.Sensor.signed (Spec.Sensor.Fmt.ofCode r.fmt) raw : Int) ∧
       valueToRaw Variant.intended r y = .ok (raw : Int) := by
   refine ⟨arg r raw, ?_, forward_argument r raw hraw, ?_⟩
-  · simp only [convert, lin_table r.lin, hlin]
+  · have ht := lin_table r.lin
+    unfold linTag at ht
+    simp only [convert, convertIn, ht, hlin]
     rfl
   · have hl : r.lin &&& 0x7f = 0 := by
       have := Nat.and_two_pow_sub_one_eq_mod r.lin 7
@@ -174,7 +202,7 @@ theorem gen_convert_eq (F : Spec.Sensor.Fns) (r : Rec) (raw : Nat) :
       some (match linTag r.lin with
         | none => .decodingError
         | some t => applyTag F t (Gen.SensorExpr.fwd_lin_arg r.m r.fmt raw r.b r.k1 r.k2)) := by
-  simp only [convert, gen_arg_eq]
+  simp only [convert, convertIn, linTag, gen_arg_eq]
   rfl
 
 theorem gen_signed_spec (r : Nat) (h : r < 256) :
@@ -244,20 +272,74 @@ theorem inverse_asShipped_counterexample :
 
 /-- The formula alone (correct sign rule) is enough to break the round trip. -/
 theorem inverse_formula_counterexample :
-    valueToRaw ⟨true, false⟩ ⟨0, 0, 2, 3, 0, 0⟩ 23 ≠ .ok 10 := by decide +kernel
+    valueToRaw ⟨true, false, false⟩ ⟨0, 0, 2, 3, 0, 0⟩ 23 ≠ .ok 10 := by decide +kernel
 
 /-- The sign rule alone (correct formula) is enough: 2's complement, M = 1, B = −10: raw 5
 converts to −5; the value is negative but the raw reading is not. -/
 theorem inverse_sign_counterexample :
     (∀ F, convert F ⟨2, 0, 1, -10, 0, 0⟩ (some 5) = some (.ok (-5))) ∧
-    valueToRaw ⟨false, true⟩ ⟨2, 0, 1, -10, 0, 0⟩ (-5) = .ok (-123) ∧
+    valueToRaw ⟨false, true, false⟩ ⟨2, 0, 1, -10, 0, 0⟩ (-5) = .ok (-123) ∧
     valueToRaw Variant.intended ⟨2, 0, 1, -10, 0, 0⟩ (-5) = .ok 5 := by
   refine ⟨fun F => ?_, by decide +kernel, by decide +kernel⟩
   rw [convert_of_tag F _ _ 0 (by decide +kernel)]
   simp only [applyTag]
   decide +kernel
 
+/-- The cube root as the pinned source writes it (`math.pow(x, 1.0/3)`, function tag 11) raises
+ValueError for EVERY negative argument — whatever the transcendental parameters are —, while the
+specification's `L` has a value there for every real cube root. -/
+theorem shipped_cubert_rejects_negatives (F : Spec.Sensor.Fns) (x : Rat) (hx : x < 0) :
+    applyTag F (Variant.asShipped.tagOf .cubert) x = .pyError "ValueError" ∧
+    (F.RealCubeRoot → ∃ y, Spec.Sensor.applyLin F .cubert x = .ok y ∧
+      applyTag F (Variant.intended.tagOf .cubert) x = .ok y) := by
+  refine ⟨?_, fun hF => ?_⟩
+  · show applyTag F 11 x = _
+    simp only [applyTag, hx, if_true]
+  · obtain ⟨y, hy⟩ := hF.defined x
+    exact ⟨y, hy, by rw [lin_functions F hF .cubert x]; exact hy⟩
+
+/-- Witness on a whole record: 2's complement, linearisation 0Bh, M = 1, B = 0, K1 = K2 = 0, reading
+F8h (= −8).  The conversion of the pinned source (`Variant.asShipped.linTable`) raises ValueError;
+the specification's value L[−8] exists for every real cube root; the intended conversion returns it. -/
+theorem cubert_negative_counterexample (F : Spec.Sensor.Fns) (hF : F.RealCubeRoot) :
+    convertIn Variant.asShipped.linTable F ⟨2, 11, 1, 0, 0, 0⟩ (some 0xF8) = some (.pyError "ValueError") ∧
+    (∃ y, Spec.Sensor.convert F 2 11 ⟨1, 0, 0, 0⟩ (some 0xF8) = some (.ok y)) ∧
+    convertIn Variant.intended.linTable F ⟨2, 11, 1, 0, 0, 0⟩ (some 0xF8) =
+      Spec.Sensor.convert F 2 11 ⟨1, 0, 0, 0⟩ (some 0xF8) := by
+  have ha : arg ⟨2, 11, 1, 0, 0, 0⟩ 0xF8 = -8 := by decide +kernel
+  have hs : Spec.Sensor.affine ⟨1, 0, 0, 0⟩ (Spec.Sensor.signed (Spec.Sensor.Fmt.ofCode 2) 0xF8 : Int) = -8 := by
+    decide +kernel
+  have t1 : linTagIn Variant.asShipped.linTable 11 = some 11 := by decide +kernel
+  have t2 : linTagIn Variant.intended.linTable 11 = some 12 := by decide +kernel
+  have hl : Spec.Sensor.linOfCode (11 % 128) = some .cubert := by decide
+  have hneg : ((-8 : Rat) < 0) := by decide +kernel
+  obtain ⟨y, hy⟩ := hF.defined (-8)
+  refine ⟨?_, ⟨y, ?_⟩, ?_⟩
+  · simp only [convertIn, t1, ha, applyTag, hneg, if_true]
+  · simp only [Spec.Sensor.convert, hl, hs, Spec.Sensor.applyLin, hy]
+  · simp only [convertIn, t2, ha, Spec.Sensor.convert, hl, hs, Spec.Sensor.applyLin]
+    exact congrArg some (cubert_intended F hF (-8))
+
 /-! ### non-vacuity: the hypotheses are satisfiable by non-trivial records -/
+
+/-- `F.RealCubeRoot` is satisfiable, and by a function that is a cube root where that is rational:
+∛8 = 2, ∛(−8) = −2 (the identity elsewhere: the theorems never look at other values). -/
+def exampleFns : Spec.Sensor.Fns :=
+  let f : Rat → Outcome Rat := fun x => .ok x
+  ⟨f, f, f, f, f, f, f, fun x => .ok (if x = 8 then 2 else if x = -8 then -2 else x)⟩
+
+example : exampleFns.RealCubeRoot ∧ exampleFns.cubert (-8) = .ok (-2) := by
+  refine ⟨⟨fun x => ⟨_, rfl⟩, fun x => ?_⟩, by decide +kernel⟩
+  show Outcome.ok _ = Spec.Sensor.negO (Outcome.ok _)
+  simp only [Spec.Sensor.negO]
+  congr 1
+  by_cases h8 : x = 8
+  · subst h8; decide +kernel
+  · by_cases h8' : x = -8
+    · subst h8'; decide +kernel
+    · have a : ¬ (-x = 8) := fun h => h8' (by rw [← h, Rat.neg_neg])
+      have b : ¬ (-x = -8) := fun h => h8 (by have := congrArg Neg.neg h; simpa [Rat.neg_neg] using this)
+      simp only [h8, h8', a, b, if_false]
 
 /-- A record with negative M, B and both exponents, 2's complement, a negative reading:
 hypotheses of `inverse_roundtrip` hold and the value is the expected rational. -/
